@@ -9,6 +9,7 @@ import (
 	"sort"
 	"strings"
 	"sync"
+	"sync/atomic"
 	"time"
 
 	badger "github.com/dgraph-io/badger/v4"
@@ -75,7 +76,7 @@ func C32(c *core.Ctx) {
 	c.Rule("2-6 subscribers, each with 1-3 patterns (hostile prefixes of length 0-5 with 0-2 ignore ranges, also beyond the key length), are registered (confirmed through " +
 		"the subscriber count) before 6 committers write hostile keys shorter and longer than the patterns (sets with meta/expiry and deletes); commit timestamps come from marker " +
 		"keys; oracle per subscriber: the delivered KVs (internal !badger! keys ignored) must equal, as a multiset of (key, version, value digest, expiry), the committed writes " +
-		"whose USER key matches one of its patterns under the reference matcher, versions must be non-decreasing in delivery order, and cancelling the context must end Subscribe; " +
+		"whose USER key matches one of its patterns under the reference matcher, versions must be non-decreasing in delivery order, and cancelling the context must end Subscribe; transient subscribers with random patterns subscribe and cancel every 1-5 ms during the run without disturbing the others; " +
 		"distinct = (pattern shape, key-shorter-than-pattern, matched/unmatched) classes")
 	work := c.WorkDir()
 	defer os.RemoveAll(work)
@@ -92,7 +93,10 @@ func C32(c *core.Ctx) {
 			}
 		}
 		ctx, cancel := context.WithCancel(context.Background())
-		var swg sync.WaitGroup
+		var swg, twg sync.WaitGroup
+		stopTransient := make(chan struct{})
+		var nTransient atomic.Int64
+		var hungTransient atomic.Bool
 		hr := HistRun{Variant: []int{0, 1, 6}[idx%3], NKeys: 40, MaxKey: 7,
 			Mix: func(keys [][]byte) hist.Mix {
 				m := hist.DefaultMix(keys)
@@ -130,7 +134,42 @@ func C32(c *core.Ctx) {
 				for db.VerifSubscriberCount() < nSub && time.Now().Before(deadline) {
 					time.Sleep(time.Millisecond)
 				}
-			}}
+				// transient subscribers come and go while the writers run: their unsubscription must
+				// not disturb the deliveries of the permanent ones
+				twg.Add(1)
+				go func() {
+					defer twg.Done()
+					tr := c.Rand(fmt.Sprintf("c32-transient-%d", idx))
+					for {
+						select {
+						case <-stopTransient:
+							return
+						default:
+						}
+						tctx, tcancel := context.WithCancel(context.Background())
+						var ms []pb.Match
+						for n := 1 + tr.Intn(2); n > 0; n-- {
+							p := genPattern(tr)
+							ms = append(ms, pb.Match{Prefix: p.Prefix, IgnoreBytes: p.IgStr})
+						}
+						done := make(chan struct{})
+						go func() {
+							_ = db.Subscribe(tctx, func(*badger.KVList) error { return nil }, ms)
+							close(done)
+						}()
+						time.Sleep(time.Duration(1+tr.Intn(5)) * time.Millisecond)
+						tcancel()
+						select {
+						case <-done:
+							nTransient.Add(1)
+						case <-time.After(10 * time.Second):
+							hungTransient.Store(true)
+							return
+						}
+					}
+				}()
+			},
+			BeforeResolve: func() { close(stopTransient); twg.Wait() }}
 		res, err := runHistory(c, work, idx, hr)
 		if err != nil {
 			cancel()
@@ -138,6 +177,10 @@ func C32(c *core.Ctx) {
 			continue
 		}
 		c.Eval(1)
+		c.Count("sub.transient_subscribers_cancelled_mid_run", nTransient.Load())
+		if hungTransient.Load() {
+			c.Violation("C32|cancel-hangs", "Subscribe of a transient subscriber did not return within 10s after its context was cancelled", nil)
+		}
 		reportProbs(c, "C32", res.Probs, res.Name)
 		// expected deliveries per subscriber
 		type dkey struct {
